@@ -51,7 +51,7 @@ def generate(kind, seed, tier="quick", focus=None):
 def world_passes(world):
     n = len(world["progs"])
     sch = dict(world["sched"])
-    if sch.get("kind") == "sites" and "sites" not in sch:
+    if sch.get("kind") in ("sites", "parkop") and "sites" not in sch:
         sch["sites"] = sites.hot_sites(tuple(sch.get("which", ("with", "store", "flag"))))
     passes = [{"name": "P0", "sched": {"kind": "serial", "order": list(range(n))}, "cells": True}]
     if n > 1 and not world.get("serial_only"):
